@@ -92,7 +92,8 @@ func checkC08(c *Ctx) {
 	ruleR21(c, dv, "R8.2c")
 	ruleNoteArithmeticAs(c, dv, "AnalogNoteOn", "analogNoteTracker", false, "R8.3")
 	ruleR14analog(c, dv, "R8.6")
-	ruleDispatch(c, dv, "R8.7", false, true) // every axis report reaches the key-emulation switch, whatever its raw value
+	ruleDispatch(c, dv, "R8.7", false, true)
+	ruleR13(c, dv, "R8.8") // only the analog note functions (and NewDevice) write the trackers: an entry removed elsewhere is a note that is never released // every axis report reaches the key-emulation switch, whatever its raw value
 	pf := newParserFacts(c)
 	if c.Require(pf.err == nil, "R8.5", "config.ParseData", fmt.Sprint(pf.err)) {
 		leaves := tomlLeaves(c)
@@ -126,7 +127,10 @@ func ruleKeyEmulationTemplate(c *Ctx, dv *dev) {
 	keySim, _ := c.P.constString(pkgConfig, "AnalogKeySim")
 	pos := c.P.Pos(fn.Pos())
 	on, off := dv.fn["AnalogNoteOn"], dv.fn["AnalogNoteOff"]
-	type res struct{ n int; bad string }
+	type res struct {
+		n   int
+		bad string
+	}
 	agg := map[string]*res{}
 	note := func(k, bad string) {
 		if agg[k] == nil {
@@ -351,7 +355,10 @@ func checkC07(c *Ctx) {
 	}
 	pos := c.P.Pos(fn.Pos())
 	ccType, _ := c.P.constString(pkgConfig, "AnalogCC")
-	type res struct{ n int; bad string }
+	type res struct {
+		n   int
+		bad string
+	}
 	agg := map[string]*res{}
 	note := func(k, bad string) {
 		if agg[k] == nil {
